@@ -50,6 +50,9 @@ def parse_routes_impl(res):
         out['viaf'] = None
     else:
         out['viaf'] = parse_voronoi_tok(t)
+    if t.peek() == 'VRT':
+        t.next()
+        out['vrt'] = [(t.next(), t.int()) for _ in range(t.int())]
     if t.peek() == 'BVC':
         t.next()
         out['bvc'] = t.next()
